@@ -6,5 +6,5 @@ CONSTANTS N = 2
           SortInflight = TRUE
           Pats = {0, 1, 2, 3}
           Appendable = {0, 1, 2, 3}
-INVARIANTS NoBadDeref SnapshotSafe SnapshotNoDup SnapshotScores SnapshotOrder SnapshotCount RestartIsolation NoOtherLostWakeup Converged RunningFalseMeansCaughtUp
+INVARIANTS NoBadDeref SnapshotSafe SnapshotNoDup SnapshotScores SnapshotOrder SnapshotCount RestartIsolation NoLostWakeup Converged RunningFalseMeansCaughtUp
 CHECK_DEADLOCK FALSE
